@@ -11,12 +11,12 @@ for d in sorted(glob.glob('/verif/seeded/*/')):
     caught=any(c['exit']==1 for c in j['checks_run'])
     conf=j['confirmed']
     ok=conf['existing_suite_failures']==0 and conf['demo_fails_with_change'] and conf['demo_passes_without_change']
-    rows.append((j['seed'],'yes' if ok else 'NO','caught' if caught else 'not caught',checks,needs))
+    rows.append((j['seed'],'yes' if ok else 'NO','caught' if caught else 'not caught',checks,j.get('history',''),needs))
 out=['# Seeded changes','',
  'Each change was written by an independent sub-agent from the property text alone (scratch worktree, nothing from /verif),',
  'confirmed by `tools/seedtest.sh` (existing suite green with the change, demonstration fails with it and passes without it),',
  'and then the property\'s quick check was run against the changed tree (`symgo check -repo <scratch worktree> -stop-on-violation`).','',
- '| seed | confirmed | result | check run | what it needs to manifest (from the author\'s notes) |','|---|---|---|---|---|']
+ '| seed | confirmed | result | check run | history | what it needs to manifest (from the author\'s notes) |','|---|---|---|---|---|---|']
 for r in rows:
     out.append('| '+' | '.join(x.replace('|','/') for x in r)+' |')
 open('/verif/seeded/SUMMARY.md','w').write('\n'.join(out)+'\n')
